@@ -409,7 +409,7 @@ def _class_attr(prog: Any, cq: str, env: dict[str, Any], kw: dict[str, Any], nam
         if m is not None:
             decos = [unparse(d) for d in m.node.decorator_list]
             menv = module_env(prog, m.module, env, kw)
-            if inst is not None:
+            if inst is not None and "super" not in env:
                 menv["super"] = lambda _q=q, _i=inst: _Super(prog, _q, _i, env, kw)
             fn = Interp(menv, **kw)._make_function(m.node)
             if "staticmethod" in decos:
@@ -512,7 +512,8 @@ def call_method(prog: Any, cq: str, method: str, self_obj: Any, env: dict[str, A
             m = c.methods[method]
             kw = dict(interp_kwargs or {})
             menv = module_env(prog, m.module, env, kw)
-            menv["super"] = lambda _q=q: _Super(prog, _q, self_obj, env, kw)
+            if "super" not in env:  # a rule may stand in for the base classes
+                menv["super"] = lambda _q=q: _Super(prog, _q, self_obj, env, kw)
             fn = Interp(menv, **kw)._make_function(m.node)
             decos = [unparse(d) for d in m.node.decorator_list]
             if "staticmethod" in decos:
